@@ -147,7 +147,8 @@ type vfPkt struct {
 	CsumZero  bool
 	CsumOK    bool // field equals CRC32c of the packet
 	Chunks    []vfChunk
-	Malformed []string // well-formedness findings
+	Malformed []string // framing / well-formedness findings (lengths, padding, counts)
+	Semantic  []string // field values that a correct sender never produces (reversed gap, zero tag, ...)
 	Fatal     bool     // framing so broken that chunk walk stopped
 }
 
@@ -186,6 +187,10 @@ func (p *vfPkt) bad(format string, args ...any) {
 	p.Malformed = append(p.Malformed, fmt.Sprintf(format, args...))
 }
 
+func (p *vfPkt) sem(format string, args ...any) {
+	p.Semantic = append(p.Semantic, fmt.Sprintf(format, args...))
+}
+
 // vfDecode decodes raw; it never panics and reports framing problems in
 // Malformed. Semantic (per chunk type) problems are reported as well.
 func vfDecode(raw []byte) *vfPkt {
@@ -206,7 +211,7 @@ func vfDecode(raw []byte) *vfPkt {
 		p.bad("packet length %d not a multiple of 4", len(raw))
 	}
 	if p.Src == 0 || p.Dst == 0 {
-		p.bad("zero port")
+		p.sem("zero port")
 	}
 	off := 12
 	for off < len(raw) {
@@ -247,16 +252,16 @@ func vfDecode(raw []byte) *vfPkt {
 		off += padded
 	}
 	if len(p.Chunks) == 0 && !p.Fatal {
-		p.bad("packet without chunks")
+		p.sem("packet without chunks")
 	}
 	for i := range p.Chunks {
 		t := p.Chunks[i].Type
 		if (t == vfCtInit || t == vfCtInitAck || t == vfCtShutdownComplete) && len(p.Chunks) != 1 {
-			p.bad("%s bundled with other chunks", vfKindName(t))
+			p.sem("%s bundled with other chunks", vfKindName(t))
 		}
 	}
 	if p.has(vfCtInit) && p.VTag != 0 {
-		p.bad("INIT with non-zero verification tag")
+		p.sem("INIT with non-zero verification tag")
 	}
 
 	return p
@@ -339,10 +344,10 @@ func (p *vfPkt) decodeChunk(c *vfChunk) {
 		c.PPI = binary.BigEndian.Uint32(v[8:])
 		c.Data = v[12:]
 		if len(c.Data) == 0 {
-			p.bad("DATA: no user data (tsn %d)", c.TSN)
+			p.sem("DATA: no user data (tsn %d)", c.TSN)
 		}
 		if c.Flags&0xf0 != 0 {
-			p.bad("DATA: reserved flag bits set %02x", c.Flags)
+			p.sem("DATA: reserved flag bits set %02x", c.Flags)
 		}
 	case vfCtIData:
 		if len(v) < 16 {
@@ -354,7 +359,7 @@ func (p *vfPkt) decodeChunk(c *vfChunk) {
 		c.TSN = binary.BigEndian.Uint32(v)
 		c.SID = binary.BigEndian.Uint16(v[4:])
 		if binary.BigEndian.Uint16(v[6:]) != 0 {
-			p.bad("I-DATA: reserved field non-zero")
+			p.sem("I-DATA: reserved field non-zero")
 		}
 		c.MID = binary.BigEndian.Uint32(v[8:])
 		if c.B {
@@ -364,7 +369,7 @@ func (p *vfPkt) decodeChunk(c *vfChunk) {
 		}
 		c.Data = v[16:]
 		if len(c.Data) == 0 {
-			p.bad("I-DATA: no user data (tsn %d)", c.TSN)
+			p.sem("I-DATA: no user data (tsn %d)", c.TSN)
 		}
 	case vfCtInit, vfCtInitAck:
 		if len(v) < 16 {
@@ -379,10 +384,10 @@ func (p *vfPkt) decodeChunk(c *vfChunk) {
 		c.InitTSN = binary.BigEndian.Uint32(v[12:])
 		c.Params = vfParseParams(p, k, v[16:])
 		if c.InitTag == 0 {
-			p.bad("%s: initiate tag 0", k)
+			p.sem("%s: initiate tag 0", k)
 		}
 		if c.OS == 0 || c.IS == 0 {
-			p.bad("%s: zero streams", k)
+			p.sem("%s: zero streams", k)
 		}
 		if c.Type == vfCtInitAck {
 			found := false
@@ -396,7 +401,7 @@ func (p *vfPkt) decodeChunk(c *vfChunk) {
 			}
 		}
 		if c.Flags != 0 {
-			p.bad("%s: flags %02x", k, c.Flags)
+			p.sem("%s: flags %02x", k, c.Flags)
 		}
 	case vfCtSack:
 		if len(v) < 12 {
@@ -424,13 +429,13 @@ func (p *vfPkt) decodeChunk(c *vfChunk) {
 		prevEnd := uint16(0)
 		for i, g := range c.Gaps {
 			if g[0] < 2 && i == 0 {
-				p.bad("SACK: first gap block starts at offset %d (<2)", g[0])
+				p.sem("SACK: first gap block starts at offset %d (<2)", g[0])
 			}
 			if g[0] > g[1] {
-				p.bad("SACK: gap block %d reversed %d-%d", i, g[0], g[1])
+				p.sem("SACK: gap block %d reversed %d-%d", i, g[0], g[1])
 			}
 			if i > 0 && g[0] <= prevEnd+1 {
-				p.bad("SACK: gap block %d (%d-%d) not strictly after previous end %d with a hole", i, g[0], g[1], prevEnd)
+				p.sem("SACK: gap block %d (%d-%d) not strictly after previous end %d with a hole", i, g[0], g[1], prevEnd)
 			}
 			prevEnd = g[1]
 		}
@@ -442,7 +447,7 @@ func (p *vfPkt) decodeChunk(c *vfChunk) {
 	case vfCtAbort, vfCtError:
 		c.Causes = vfParseCauses(p, k, v)
 		if c.Type == vfCtError && len(c.Causes) == 0 {
-			p.bad("ERROR without causes")
+			p.sem("ERROR without causes")
 		}
 	case vfCtShutdown:
 		if len(v) != 4 {
@@ -458,7 +463,7 @@ func (p *vfPkt) decodeChunk(c *vfChunk) {
 	case vfCtCookieEcho:
 		c.Cookie = v
 		if len(v) == 0 {
-			p.bad("COOKIE-ECHO: empty cookie")
+			p.sem("COOKIE-ECHO: empty cookie")
 		}
 	case vfCtReconfig:
 		c.Params = vfParseParams(p, k, v)
@@ -497,7 +502,7 @@ func (p *vfPkt) decodeChunk(c *vfChunk) {
 		for o := 4; o < len(v); o += 8 {
 			fl := binary.BigEndian.Uint16(v[o+2:])
 			if fl&^1 != 0 {
-				p.bad("I-FORWARD-TSN: reserved bits set")
+				p.sem("I-FORWARD-TSN: reserved bits set")
 			}
 			c.Fwd = append(c.Fwd, vfFwd{SID: binary.BigEndian.Uint16(v[o:]), Unordered: fl&1 != 0, Seq: binary.BigEndian.Uint32(v[o+4:])})
 		}
